@@ -228,6 +228,13 @@ pub fn check_sums(ep: &EnergyPerformance, sc: &Scales) -> CheckResult {
         ensure!(close(s, b.del.an as f64, t), "cr:del", "{}: delivered {} != grid + on-site + cogeneration input {}", car.name(), b.del.an, s);
         let s = b.exp.grid_an as f64 + b.exp.nepus_an as f64;
         ensure!(close(s, b.exp.an as f64, t), "cr:exp", "{}: exported {} != grid + nEPB {}", car.name(), b.exp.an, s);
+        // the same two breakdowns in weighted terms
+        for j in 0..3 {
+            let s = r3(&b.we.del_grid)[j] + r3(&b.we.del_onst)[j] + r3(&b.we.del_cgn)[j];
+            ensure!(close(s, r3(&b.we.del)[j], tw), "cr:we.del", "{}: weighted delivered [{}] {} != grid + on-site + cogeneration input {}", car.name(), j, r3(&b.we.del)[j], s);
+            let s = r3(&b.we.exp_grid_a)[j] + r3(&b.we.exp_nepus_a)[j];
+            ensure!(close(s, r3(&b.we.exp_a)[j], tw), "cr:we.exp_a", "{}: weighted exported (step A) [{}] {} != grid {} + nEPB {}", car.name(), j, r3(&b.we.exp_a)[j], r3(&b.we.exp_grid_a)[j], r3(&b.we.exp_nepus_a)[j]);
+        }
         for (src, m) in &b.prod.epus_by_srv_by_src_an {
             let s: f64 = m.values().map(|v| *v as f64).sum();
             let e = b.prod.epus_by_src_an.get(src).cloned().unwrap_or(0.0) as f64;
